@@ -12,6 +12,14 @@ Observation point: ``Grid.bounds`` (radians, ``[[lat_min, lat_max], [lon_min, lo
   implementation's box (1e-9 rad).
 * Faces are batched into one grid (mixed sizes → padded rows); when ``Grid.bounds`` raises, each
   face of the batch is retried alone to find the culprit.
+* The FORM of the coordinate input is a random dimension of every batch (``pick_form``): dtype
+  float64 / float32 / int64 / int32 / Python ints (integer forms use faces on the whole-degree
+  lattice, so the integer form is exact), construction through ``Grid.from_topology``,
+  ``ux.open_grid(vertices, latlon=True)``, ``ux.open_grid(xyz vertices, latlon=False)`` on radius
+  1 / 6371 / 0.25, ``Grid.from_dataset``; longitudes in [-180,180) or [0,360); with or without
+  ``normalize_cartesian_coordinates()``.  The oracle judges against the positions exactly as supplied
+  (float32 forms with tolerance 2e-5 rad).  The Lean model is over a field: dtype promotion of the
+  inputs is exercised here, not modelled.  A numba TypingError for a dtype is noted, not judged (C08).
 """
 
 from __future__ import annotations
